@@ -1,0 +1,16 @@
+'''
+Verification hooks (off unless the environment variable PYVSC_VERIF=1).
+
+An external monitor registers callables in ``listeners``; the library calls
+``emit(event, **payload)`` at a few well-defined points. With the guard off
+``ENABLED`` is False and no call site does anything beyond testing it.
+'''
+import os
+
+ENABLED = os.environ.get("PYVSC_VERIF", "0") == "1"
+
+listeners = []
+
+def emit(event, **payload):
+    for l in list(listeners):
+        l(event, payload)
